@@ -557,9 +557,11 @@ def stepClose (s : Node) (c : Nat) (cut : Option Nat := none) : Node × Out :=
     if x.closed then (s, { tag := .ign })
     else if x.awaiting.isSome then ({ s with conns := s.conns.set c { x with half := true } }, { tag := .deferred })
     else
-      -- `cut`: while `Close` is still writing, the link's reader relays the leader's first answers to the client that has
-      -- gone; the second such write fails, `processBinaryProcotol` returns the error, `Process` returns and CLOSES the link —
-      -- the remaining will commands find "client not open" and are lost. `cut = some k`: only the first k frames went out.
+      -- `cut = some k`: only the first k frames went out. Two causes in the real code: (1) while `Close` is still writing, the
+      -- link's reader relays the leader's first answers to the client that has gone; the second such write fails,
+      -- `processBinaryProcotol` returns the error, `Process` returns and CLOSES the link — the remaining will commands find
+      -- "client not open"; (2) `Close` closes the link's socket right after the last write while answers of the leader are
+      -- still unread: the kernel answers with RST and discards what has not left the send queue yet.
       let fw := match cut with | none => closeFwd s x | some k => (closeFwd s x).take k
       ({ s with conns := s.conns.set c { x with closed := true, link := none } },
        { tag := if fw = [] then .ok else .down, fwd := fw.map (fun f => (c, f)) })
